@@ -103,6 +103,8 @@ func prefixPorcupineModel(base *model.PrefixModel) porcupine.Model {
 func (prefixConcEngine) Run(ctx *fw.Ctx, cs any) {
 	c := cs.(*prefixConcCase)
 	rng := rand.New(rand.NewSource(c.Seed))
+	defer setLogLevelName("info")
+	setCaseLogLevel(c.Seed)
 	_, pool, err := net.ParseCIDR(c.Pool)
 	if err != nil {
 		ctx.Inconclusive("bad pool")
